@@ -298,7 +298,8 @@ Definition decode_picture (o : dec_opts) (prev : option picture) (r0 : reader)
     let* (trp, r) := (if has opts REFERENCE_PICTURE_SELECTION then decode_trpi r else Ok (None, r)) in
     let* r := (if has opts REFERENCE_PICTURE_SELECTION then let* (_, r) := decode_bcm r in Ok r else Ok r) in
     let* _ := (if has opts REFERENCE_PICTURE_RESAMPLING
-                  || (match prev with
+                  || negb (match ty with IFrame => true | _ => false end)   (* an INTRA picture has nothing to resample *)
+                     && (match prev with
                       | Some p => (match format p, fmt with
                                    | Some _, Some _ => negb (format_eqb (format p) fmt)   (* only two transmitted formats can differ *)
                                    | _, _ => false
